@@ -153,11 +153,6 @@ INS_OPTIONS = [
     ("strict_threshold=True", {"strict_threshold": True}, {}, True),
     ("draw_iid_live=False", {"draw_iid_live": False}, {}, True),
     ("n_update=10", {"n_update": 10}, {}, False),
-    ("stopping_criterion=ratio_ns", {"stopping_criterion": "ratio_ns"}, {}, False),
-    ("stopping_criterion=Z_err", {"stopping_criterion": "Z_err", "tolerance": 0.5}, {}, True),
-    ("stopping_criterion=log_dZ", {"stopping_criterion": "log_dZ", "tolerance": 0.5}, {}, False),
-    ("stopping_criterion=ess", {"stopping_criterion": "ess", "tolerance": 50.0}, {}, False),
-    ("stopping_criterion=fractional_error", {"stopping_criterion": "fractional_error", "tolerance": 0.5}, {}, False),
     ("stopping_criterion=[ratio,ess],check_criteria=all",
      {"stopping_criterion": ["ratio", "ess"], "tolerance": [0.0, 50.0], "check_criteria": "all"}, {}, True),
     ("tolerance=100", {"tolerance": 100.0}, {}, False),
@@ -293,7 +288,39 @@ def mkjob(jid, sampler, label, kw, rkw, tier, seed, stream="valid", model="gauss
             "draw_cap": 300_000, "like_cap": 100_000, "stall_cap": 300, "max_traces": 8}
 
 
-def build_jobs(chk):
+# tolerance used with each stopping criterion on its own (criterion <= tolerance stops the run); a criterion
+# added to nessai later gets the default.  Chosen so that the canonical run does NOT stop at the first
+# iteration: a spelling that reads a different quantity then shows in the iteration count.
+CRITERION_TOLERANCE = {"ratio": 0.0, "ratio_ns": 0.0, "Z_err": 0.05, "log_dZ": 0.001, "ess": 0.0, "fractional_error": 0.05}
+FALLBACK_ALIASES = [("ratio", ["ratio"])]
+
+
+def alias_jobs(n, tier, seed0, alias_tbl):
+    """every spelling of every stopping criterion, taken from the alias table REGENERATED from the source
+    (a new alias is picked up automatically).  quick: the canonical name (if it is one of its own aliases) and
+    the first other spelling of each criterion; thorough: all spellings, and each non-canonical one inside a
+    two-criterion list.  Jobs of one criterion share seed and tolerance: they must behave identically."""
+    out = []
+    for crit, als in alias_tbl:
+        tol = CRITERION_TOLERANCE.get(crit, 0.5)
+        others = [a for a in als if a != crit]
+        spellings = ([crit] if crit in als else []) + (others if tier == "thorough" else others[:1])
+        ref = spellings[0] if spellings else None
+        for a in spellings:
+            j = mkjob(f"j{next(n)}", "ins", f"stopping_criterion={a}", {"stopping_criterion": a, "tolerance": tol}, {}, tier, seed0)
+            j["alias"] = {"criterion": crit, "spelling": a, "reference": ref, "form": "single"}
+            out.append(j)
+        if tier == "thorough":
+            partner = "ess" if crit != "ess" else "ratio"
+            for a in ([crit] if crit in als else []) + others:
+                kw = {"stopping_criterion": [a, partner], "tolerance": [tol, CRITERION_TOLERANCE.get(partner, 0.5)], "check_criteria": "any"}
+                j = mkjob(f"j{next(n)}", "ins", f"stopping_criterion=[{a},{partner}]", kw, {}, tier, seed0)
+                j["alias"] = {"criterion": crit, "spelling": a, "reference": crit if crit in als else others[0], "form": "list"}
+                out.append(j)
+    return out
+
+
+def build_jobs(chk, alias_tbl=None):
     tier, jobs = chk.tier, []
     seed0 = 1000 + chk.seed
     n = itertools.count()
@@ -309,6 +336,8 @@ def build_jobs(chk):
                                   model="gauss3" if "reparameterisations" not in kw else "gauss2"))
         for label, kw, rkw in inval:
             jobs.append(mkjob(f"j{next(n)}", sampler, label, kw, rkw, tier, seed0, stream="invalid"))
+        if sampler == "ins":
+            jobs += alias_jobs(n, tier, seed0, alias_tbl or FALLBACK_ALIASES)
         if tier == "thorough":
             for (na, va), (nb, vb) in itertools.combinations(axes, 2):
                 for a in va:
@@ -822,18 +851,63 @@ def run_jobs(chk, jobs, timeout):
         return None, f"{e}: {out[-500:]} {err[-500:]}"
 
 
+def alias_difference(ref, r):
+    """None when the run with an alias spelling behaves like the reference spelling (same seed, same
+    tolerance); else a description"""
+    if ref.get("status") != r.get("status") or (ref.get("status") == "raised" and ref.get("phase") != r.get("phase")):
+        return (f"reference: {ref.get('status')} in phase {ref.get('phase')}; alias: {r.get('status')} in phase {r.get('phase')} "
+                f"({r.get('exc_type')}: {(r.get('exc_msg') or '')[:100]})")
+    if ref.get("status") != "completed":
+        return None
+    a, b = ref.get("result") or {}, r.get("result") or {}
+    diffs = []
+    for f in ("iteration", "n_nested", "n_training", "n_post"):
+        if a.get(f) != b.get(f):
+            diffs.append(f"{f}: {a.get(f)} vs {b.get(f)}")
+    la, lb = a.get("logZ"), b.get("logZ")
+    if la is None or lb is None or not (abs(la - lb) <= 1e-9 * max(1.0, abs(la))):
+        diffs.append(f"logZ: {la} vs {lb}")
+    if ref.get("n_like") != r.get("n_like"):
+        diffs.append(f"likelihood evaluations: {ref.get('n_like')} vs {r.get('n_like')}")
+    return "; ".join(diffs) or None
+
+
+def check_aliases(chk, jobs, results):
+    byref = {}
+    for job, r in zip(jobs, results):
+        al = job.get("alias")
+        if al and al["spelling"] == al["reference"]:
+            byref[(al["criterion"], al["form"])] = (job, r)
+    for job, r in zip(jobs, results):
+        al = job.get("alias")
+        if not al or al["spelling"] == al["reference"]:
+            continue
+        ref = byref.get((al["criterion"], al["form"]))
+        if ref is None:
+            continue
+        chk.count("alias-runs-compared-with-canonical-spelling")
+        d = alias_difference(ref[1], r)
+        if d:
+            small = lambda x: {k: v for k, v in x.items() if k not in ("traces", "attrs", "stack")}
+            chk.fail(f"C20:alias-differs:ins:{al['criterion']}:{al['spelling']}",
+                     f"ins run with stopping_criterion spelled `{al['spelling']}` ({al['form']}) does not behave like the same run "
+                     f"spelled `{al['reference']}` (same seed, same tolerance): {d}",
+                     {"kind": "alias_pair", "reference": ref[0], "job": job, "observed": {"reference": small(ref[1]), "alias": small(r)}})
+
+
 def lres_lit(k, a, p):
     return f"(Done {cN(k)} {cZ(a)} {cZ(p)})"
 
 
-def covering_array(chk, static):
-    jobs = build_jobs(chk)
+def covering_array(chk, static, alias_tbl=None):
+    jobs = build_jobs(chk, alias_tbl)
     t0 = time.time()
     results, err = run_jobs(chk, jobs, timeout=1500 if chk.tier == "quick" else 5400)
     if results is None:
         chk.oblige("covering-array child ran", "harness", False, err)
         return
     chk.notes.append(f"covering array: {len(jobs)} bounded runs in {time.time() - t0:.0f}s")
+    check_aliases(chk, jobs, results)
     pop_lits, ins_lits = [], []
     runtime_attrs = {}
     lines = next((r.get("loop_lines") for r in results if r.get("loop_lines")), {}) or {}
@@ -928,7 +1002,7 @@ def covering_array(chk, static):
 def run(chk):
     chk.rule = ("covering array over the documented options of both samplers on 2-parameter (and, thorough, 3-parameter) "
                 "Gaussian models: the base configuration, every option value on its own, "
-                "all pairs of values over an 11/12-axis subset (thorough), a separate stream of invalid values; "
+                "every spelling of every stopping criterion from the regenerated alias table (quick: canonical + one alias each), all pairs of values over an 11/12-axis subset (thorough), a separate stream of invalid values; "
                 "one bounded child per configuration (wall-clock, proposal-draw, likelihood-evaluation and "
                 "no-progress caps); non-trivial = any configuration other than the base one, distinct by "
                 "(sampler, option label, seed); validator cases are generated around the decision boundaries")
@@ -946,7 +1020,7 @@ def run(chk):
         validate_sigs(chk, static["tb"])
     st = validators_static(chk)
     validators_dynamic(chk, st)
-    covering_array(chk, static)
+    covering_array(chk, static, st.get("aliases"))
 
 
 # =====================================================================================================
@@ -975,6 +1049,26 @@ def replay(data):
                   f"({'BEFORE' if res.get('phase') in UP_FRONT else 'AFTER'} sampling started)")
             print(f"VIOLATION property={PID} replay=(replayed) {fk[0]}: {fk[1]}")
             rc_out = 1
+    if kind == "alias_pair":
+        outdir = f"/tmp/c20_replay_{os.getpid()}"
+        jobs = [dict(rp["reference"], id="ref"), dict(rp["job"], id="alias")]
+        inp = json.dumps({"outdir": outdir, "parallel": 2, "jobs": jobs})
+        r = subprocess.run(["timeout", "-k", "5", "400", common.PY, os.path.join(common.VERIF, "harness", "c20_child.py"), "runs"],
+                           input=inp, capture_output=True, text=True, env=common.child_env())
+        subprocess.run(["rm", "-rf", outdir])
+        try:
+            res = json.loads(r.stdout)["results"]
+        except Exception:
+            print("replay child failed:", r.stderr[-800:])
+            return 1
+        for j, x in zip(jobs, res):
+            print(j["label"], "->", json.dumps({k: x.get(k) for k in ("status", "phase", "exc_type", "exc_msg", "n_like", "result")})[:600])
+        d = alias_difference(res[0], res[1])
+        fk = failure_key(jobs[1], res[1])
+        if d or fk:
+            print(f"VIOLATION property={PID} replay=(replayed) alias `{jobs[1]['label']}` vs `{jobs[0]['label']}`: {d or fk[1]}")
+            return 1
+        return 0
     if rp.get("site"):
         import c20_calls
         tb = c20_calls.build()
